@@ -80,6 +80,8 @@ class _Scan(ast.NodeVisitor):
         self.fname = fname
         self.msgs = []
         self.funcs = []          # stack of (name, locally bound names)
+        self.fnodes = []         # stack of the function nodes themselves
+        self.module_node = None
         self.module_bound = set()
         self.allowed_seen = {}
 
@@ -109,12 +111,79 @@ class _Scan(ast.NodeVisitor):
 
     def visit_Module(self, node):
         self.module_bound = self._bound_in(node.body)
+        self.module_node = node
         self.generic_visit(node)
+
+    # ---- the finitely many string constants an expression can evaluate to, or None ----------
+    # constants, conditional expressions, subscripts / .get of literal tables, and local (or
+    # module-level) names ALL of whose bindings in their scope are plain assignments of such
+    # expressions.  Anything else is "computed": fail closed.
+    def _str_values(self, e, depth=0):
+        if depth > 6:
+            return None
+        if isinstance(e, ast.Constant):
+            return [e.value] if isinstance(e.value, str) else None
+        if isinstance(e, ast.IfExp):
+            a, b = self._str_values(e.body, depth + 1), self._str_values(e.orelse, depth + 1)
+            return None if a is None or b is None else a + b
+        if isinstance(e, (ast.Tuple, ast.List)):
+            out = []
+            for x in e.elts:
+                v = self._str_values(x, depth + 1)
+                if v is None:
+                    return None
+                out += v
+            return out
+        if isinstance(e, ast.Dict):
+            out = []
+            for x in e.values:
+                v = self._str_values(x, depth + 1)
+                if v is None:
+                    return None
+                out += v
+            return out
+        if isinstance(e, ast.Subscript):
+            return self._str_values(e.value, depth + 1)
+        if isinstance(e, ast.Name):
+            for scope in ([self.fnodes[-1]] if self.fnodes else []) + [self.module_node]:
+                if scope is None:
+                    continue
+                vals, bound_otherwise = [], False
+                stack = list(scope.body if isinstance(scope.body, list) else [scope.body])
+                while stack:
+                    n = stack.pop()
+                    if isinstance(n, (ast.FunctionDef, ast.AsyncFunctionDef, ast.ClassDef, ast.Lambda)):
+                        continue
+                    if isinstance(n, ast.Assign) and len(n.targets) == 1 and isinstance(n.targets[0], ast.Name) \
+                            and n.targets[0].id == e.id:
+                        v = self._str_values(n.value, depth + 1)
+                        if v is None:
+                            bound_otherwise = True
+                        else:
+                            vals += v
+                        continue
+                    if isinstance(n, ast.Name) and isinstance(n.ctx, (ast.Store, ast.Del)) and n.id == e.id:
+                        bound_otherwise = True       # loop variable, augmented / tuple assignment, with ... as
+                    stack.extend(ast.iter_child_nodes(n))
+                if scope is not self.module_node and hasattr(scope, "args"):
+                    a = scope.args
+                    params = [x.arg for x in list(a.posonlyargs) + list(a.args) + list(a.kwonlyargs)]
+                    params += [x.arg for x in (a.vararg, a.kwarg) if x]
+                    if e.id in params:
+                        bound_otherwise = True
+                if bound_otherwise:
+                    return None
+                if vals:
+                    return vals
+            return None
+        return None
 
     def _visit_func(self, node, name):
         body = node.body if isinstance(node.body, list) else [node.body]
         self.funcs.append((name, self._bound_in(body, node.args)))
+        self.fnodes.append(node)
         self.generic_visit(node)
+        self.fnodes.pop()
         self.funcs.pop()
 
     def visit_FunctionDef(self, node):
@@ -197,11 +266,13 @@ class _Scan(ast.NodeVisitor):
         if fname in ("strftime", "__format__", "format") and isinstance(f, ast.Attribute):
             if fname == "strftime":
                 fmt = node.args[0] if node.args else None
-                if not (isinstance(fmt, ast.Constant) and isinstance(fmt.value, str)):
+                vals = self._str_values(fmt) if fmt is not None else None
+                if vals is None:
                     self.msgs.append("%s: strftime with a computed format cannot be scanned" % self._where(node)[1])
-                elif any(d in fmt.value for d in ZONE_DIRECTIVES):
-                    self.msgs.append("%s: strftime format %r contains a zone/platform dependent directive" % (
-                        self._where(node)[1], fmt.value))
+                for v in vals or []:
+                    if any(d in v for d in ZONE_DIRECTIVES):
+                        self.msgs.append("%s: strftime format %r contains a zone/platform dependent directive" % (
+                            self._where(node)[1], v))
         self.generic_visit(node)
 
 
